@@ -50,6 +50,62 @@ def response_for(method, kwargs, alloc):
     return None
 
 
+def oversubscribed_runs(data, std, sets, rng, bycls):
+    """every facade method against a device that has more to say than fits: the whole data-in buffer is filled
+    (every length field inside it then announces far more than the buffer holds — 0xFF… — or a little more — 0x0101…).
+    Yields one observation per call: what was handed to the device at every send, and how the call ended.  A
+    decoding error on such (truncated) data is not this property's business; a second command is."""
+    from pyscsi.pyscsi.scsi import SCSI
+    for m in data["facade"]:
+        meth = m["name"]
+        fsig = inspect.signature(getattr(SCSI, meth))
+        for ci, call in enumerate(m["calls"]):
+            c = bycls.get(call["cls"])
+            if c is None or c["cls"].startswith("ATAPassThrough"):
+                continue
+            s = std.get(c["module"].split(".")[-1], c["cls"])
+            enums = [(sn, e) for sn, e in sets.items() if cmds.find_op(e, s["opname"]) is not None]
+            if not enums:
+                continue
+            required = [p for p, par in list(fsig.parameters.items())[1:] if par.default is inspect.Parameter.empty
+                        and par.kind in (par.POSITIONAL_OR_KEYWORD,)]
+            allockey = [k for k in ("alloclen", "alloc_len") if k in fsig.parameters or (m["kwargs"] and k in [p[0] for p in c["params"]])]
+            base = c01.make_cases(c, s, rng, 1)
+            kw0 = c01.finalize_kwargs(c, base[0], rng)
+            blocksize = kw0.pop("blocksize", 0) or 0
+            if c["cls"] in ("Read10", "Read12", "Read16"):
+                blocksize, kw0["tl"] = 512, 1
+            args0 = {k: v for k, v in kw0.items() if k in required}
+            if meth == "persistentreservein":
+                args0["service_action"] = ci
+            if meth == "persistentreserveout":
+                args0.setdefault("service_action", 0)
+            if meth == "readcd":
+                continue
+            for r in required:
+                args0.setdefault(r, kw0.get(r, 0))
+            variants = [dict(args0)] + [dict(args0, **{k: a}) for k in allockey[:1] for a in (8, 96)]
+            for args in variants:
+                for fill in (0xFF, 0x01):
+                    sn, enum = enums[(fill + len(args)) % len(enums)]
+                    sends = []
+
+                    def responder(cmd, fill=fill, sends=sends):
+                        sends.append((bytes(cmd.cdb), len(cmd.datain), len(cmd.dataout)))
+                        if len(cmd.datain):
+                            cmd.datain[:] = bytes([fill]) * len(cmd.datain)
+                    fac, dev = devices.attach(enum, blocksize=blocksize, responder=responder)
+                    del sends[:]
+                    try:
+                        cmd = getattr(fac, meth)(**args)
+                        err = None
+                    except Exception as e:          # noqa
+                        cmd, err = None, e
+                    shown = {k: (v if isinstance(v, (int, type(None))) else "<%s>" % type(v).__name__) for k, v in args.items()}
+                    yield {"method": meth, "set": sn, "args": shown, "fill": fill, "sends": list(sends), "calls": len(dev.calls),
+                           "error": err, "cmd": cmd, "class": c, "std": s}
+
+
 def optional_subsets(names, cap=64):
     if len(names) <= 6:
         for r in range(len(names) + 1):
@@ -270,6 +326,113 @@ def run(res, tier, build_ok):
                         break
                 res.count("device failure injections")
                 reqs.append(("facaderun %d ok err ok" % (1 if m["unmarshall"] is not None else 0), "ok execs=1 trace=c,e raised", meth))
+    # ---- a device that has more to say than fits into the buffer (every length field in the response announces more
+    #      than was transferred): still exactly one command per call
+    for ob in oversubscribed_runs(data, std, sets, rng, bycls):
+        res.case(("oversubscribed", ob["method"], ob["set"], ob["fill"], tuple(sorted(ob["args"].items(), key=str))),
+                 {"method": ob["method"], "set": ob["set"], "args": ob["args"], "fill": ob["fill"], "sent": ob["calls"]})
+        res.count("device announces more than fits")
+        if ob["calls"] != 1:
+            res.violation("facade=%s oversubscribed executes=%d" % (ob["method"], ob["calls"]),
+                          "SCSI.%s sent %d commands to a device whose answer announces more data than the buffer holds" % (ob["method"], ob["calls"]),
+                          {"method": ob["method"], "set": ob["set"], "args": ob["args"], "fill": ob["fill"],
+                           "sends": [(a.hex(), b, c_) for a, b, c_ in ob["sends"]]})
+        elif ob["error"] is None and ob["cmd"] is not None and len(ob["cmd"].datain) != ob["sends"][0][1]:
+            res.violation("facade=%s oversubscribed buffer replaced" % ob["method"],
+                          "SCSI.%s: the data-in buffer of the returned command (%d bytes) is not the one handed to the device (%d bytes)" % (
+                              ob["method"], len(ob["cmd"].datain), ob["sends"][0][1]),
+                          {"method": ob["method"], "set": ob["set"], "args": ob["args"], "fill": ob["fill"]})
+    # ---- through the real device classes (SG_IO over the virtual OS, iSCSI over the stand-in binding): a device of each
+    #      type, every facade method its command set offers, twice round with different arguments, device nodes
+    #      re-created in between (SG_IO).  Each call: no error, exactly one command on the wire, and it is the returned
+    #      command's CDB (not an earlier one's).
+    import sys as _sys
+    from lib import virtos
+    sgio, iscsi = _sys.modules["sgio"], _sys.modules["iscsi"]
+    from pyscsi.pyscsi.scsi_device import SCSIDevice
+    from pyscsi.pyiscsi.iscsi_device import ISCSIDevice
+    plan = []
+    for m in data["facade"]:
+        fsig = inspect.signature(getattr(SCSI, m["name"]))
+        for ci, call in enumerate(m["calls"]):
+            c = bycls.get(call["cls"])
+            if c is None or m["name"] == "readcd":
+                continue
+            plan.append((m, ci, c, std.get(c["module"].split(".")[-1], c["cls"]), fsig))
+    for transport in ("sgio", "iscsi"):
+        for dt, sn in ((0, "sbc"), (1, "ssc"), (3, "spc"), (8, "smc"), (5, "mmc"), (7, "sbc"), (4, "sbc")):
+            wire = []
+            vos = virtos.VirtualOS()
+            vos.install()
+            vos.mknod("/dev/sgv")
+
+            def sg_backend(f, cdb, do, di, wire=wire, dt=dt):
+                wire.append(bytes(cdb))
+                if cdb[0] == 0x12 and len(di):
+                    di[0] = dt
+                return 0, None
+
+            def is_backend(lun, task, do, di, wire=wire, dt=dt):
+                wire.append(bytes(task.cdb))
+                if task.cdb[0] == 0x12 and di is not None and len(di):
+                    di[0] = dt
+                return 0, None
+            sgio.BACKEND, iscsi.BACKEND = sg_backend, is_backend
+            try:
+                dev = SCSIDevice("/dev/sgv") if transport == "sgio" else ISCSIDevice("iscsi://127.0.0.1/iqn.t:x/0", "iqn.i")
+                fac = SCSI(dev, 512)
+                offered = [p_ for p_ in plan if cmds.find_op(dev.opcodes, p_[3]["opname"]) is not None]
+                order = [p_ for _ in range(2) for p_ in rng.sample(offered, len(offered))]
+                for k, (m, ci, c, st, fsig) in enumerate(order):
+                    meth = m["name"]
+                    required = [p_ for p_, par in list(fsig.parameters.items())[1:] if par.default is inspect.Parameter.empty
+                                and par.kind in (par.POSITIONAL_OR_KEYWORD,)]
+                    kw0 = c01.finalize_kwargs(c, rng.choice(c01.make_cases(c, st, rng, 1)), rng)
+                    bs = kw0.pop("blocksize", 0) or 0
+                    if c["cls"].startswith("ATAPassThrough"):
+                        kw0["t_type"] = 0
+                    if c["cls"] in ("Read10", "Read12", "Read16"):
+                        bs, kw0["tl"] = 512, rng.randint(0, 3)
+                    args = {k_: v for k_, v in kw0.items() if k_ in required or (not m["kwargs"] and k_ in fsig.parameters and rng.random() < 0.5)}
+                    if meth == "persistentreservein":
+                        args["service_action"] = ci
+                    if meth == "persistentreserveout":
+                        args.setdefault("service_action", 0)
+                    for r in required:
+                        args.setdefault(r, kw0.get(r, 0))
+                    for k_ in ("alloclen", "alloc_len"):
+                        if k_ in args:
+                            args[k_] = rng.choice([96, 255])
+                    fac.blocksize = bs
+                    replug = transport == "sgio" and rng.random() < 0.3
+                    if replug:
+                        vos.replug("/dev/sgv")
+                    del wire[:]
+                    shown = {k_: (v if isinstance(v, (int, type(None))) else "<%s>" % type(v).__name__) for k_, v in args.items()}
+                    res.count("real transport %s" % transport)
+                    try:
+                        cmd = getattr(fac, meth)(**args)
+                        bad = None
+                        if len(wire) != 1:
+                            bad = "%d commands on the wire" % len(wire)
+                        elif wire[0] != bytes(cmd.cdb):
+                            bad = "the CDB on the wire (%s) is not the returned command's (%s)" % (wire[0].hex(), bytes(cmd.cdb).hex())
+                    except Exception as e:
+                        bad = "raises %s (%d commands on the wire)" % (type(e).__name__, len(wire))
+                    if bad:
+                        res.violation("facade=%s transport=%s %s" % (meth, transport, bad.split(" (")[0][:40]),
+                                      "SCSI.%s over %s, device type %02Xh, call %d of the session%s: %s" % (
+                                          meth, transport, dt, k + 1, " after the node was re-created" if replug else "", bad),
+                                      {"method": meth, "transport": transport, "devicetype": dt, "args": shown, "call_index": k, "replugged": replug,
+                                       "earlier": [o[0]["name"] for o in order[:k]][-6:]})
+                        break
+                res.case(("real", transport, dt), {"transport": transport, "devicetype": dt, "set": sn, "calls": len(order)})
+            finally:
+                sgio.BACKEND, iscsi.BACKEND = None, None
+                try:
+                    dev.close()
+                except Exception:
+                    pass
     # ---- histories: the same facade method called again while the caller still holds the earlier results.  Every call
     #      must hand the device a command and buffers of its own (a buffer handed over by two commands is handed over
     #      twice), fresh (zero-filled) on entry, and an earlier result must stay as the device left it.  Sizes include
